@@ -1,5 +1,5 @@
 \* C16 quick: store-level simulated histories with reweight low2 x high3
-\* run by hand:  cd spec && tlc -workers 8 RunGenStore.tla -config cfg/C16__RunGenStore__store_level_simulated_histories_with_reweight_low2_x_high3.cfg -simulate num=375 -depth 15 -seed 2   (root module generated by the harness: see the .tla file next to this one; copy it to spec/ first)
+\* run by hand:  cd spec && tlc -workers 8 RunGenStore.tla -config cfg/C16__RunGenStore__store_level_simulated_histories_with_reweight_low2_x_high3.cfg -simulate num=375 -depth 15 -seed 1   (root module generated by the harness: see the .tla file next to this one; copy it to spec/ first)
 INIT GenInit
 NEXT GenNext
 CONSTANTS
@@ -13,5 +13,9 @@ CONSTANTS
   InitStores <- RInit
   Depth = 14
   EndMarker = TRUE
+  SlotKeys <- RSlotKeys
+  Asc <- RAsc
+  Desc <- RDesc
+  Pairs <- RPairs
 INVARIANT Emit
 CHECK_DEADLOCK FALSE
